@@ -20,7 +20,7 @@ def ds_replay(ck, behaviours, label):
   for i, b in enumerate(behaviours):
     c = b["cfg"]
     o = {"mode": c["mode"], "S": c["S"], "P": c["P"], "Start": c["Start"], "sched": c["sched"],
-         "End": c["End"], "thr": 0.1, "beta1": 0.5 if i % 2 else 0.0,
+         "End": c["End"], "thr": [0.1, 0.5, 4.0][(i // 3) % 3], "beta1": 0.5 if i % 2 else 0.0,
          "graft": ["SGD", "RMSPROP", "ADAGRAD"][i % 3], "beta2": [1.0, 0.75][(i // 2) % 2],
          "lr": 0.25, "merge": False}
     if c["mode"] in ("pmap", "pmapq"):
@@ -57,7 +57,7 @@ def ds_random_traces(ck, n):
     o = {"mode": mode, "S": int(rs.randint(1, 8)), "P": int(rs.randint(1, 8)),
          "Start": int(rs.randint(0, 9)), "sched": sched,
          "End": int([0, 10, 20, 40][rs.randint(4)]) if sched != "none" else 0,
-         "thr": 0.1, "beta1": float([0.0, 0.5, 0.9][rs.randint(3)]),
+         "thr": float([0.1, 0.5, 0.02][rs.randint(3)]), "beta1": float([0.0, 0.5, 0.9][rs.randint(3)]),
          "beta2": float([1.0, 0.5, 0.999][rs.randint(3)]),
          "graft": ["SGD", "ADAGRAD", "RMSPROP", "RMSPROP_NORMALIZED", "SQRT_N"][rs.randint(5)],
          "nesterov": bool(rs.randint(2)), "eigh": bool(rs.randint(2)), "D": 1,
